@@ -628,6 +628,7 @@ inductive NetOp where
   | add (id : Nat) (l : Lan) (rtree : Bool)
   | addFrom (ls : List (Nat × Lan))
   | remove (id : Nat) (rtree : Bool)
+  | removeMany (ids : List (Nat × Bool))      -- Scenario.remove_lanelet(lanelet or list): may raise half way (see `Net.removeMany`)
   | translateRotate (v : Nat)
   | convert2d (v : Nat)
   | lanTranslateRotate (id : Nat) (v : Nat)   -- network.find_lanelet_by_id(id).translate_rotate(…): a lanelet the network holds
@@ -636,6 +637,9 @@ inductive NetOp where
   | pickle
   | createFrom            -- continue on LaneletNetwork.create_from_lanelet_network(network)
   | replace (ls : List (Nat × Lan))   -- Scenario.replace_lanelet_network(create_from_lanelet_list(ls)) / add_objects(network)
+  | replaceErase (unreg : List Nat) (ls : List (Nat × Lan))
+      -- Scenario.replace_lanelet_network(network): FIRST `erase_lanelet_network`, i.e. `self.remove_lanelet(la)` for every lanelet
+      -- (scenario.py:901-902) — which raises KeyError half way at a lanelet the scenario has not registered (`unreg`) —, THEN the new network
   | failed (e : Err)      -- a mutator that raises before it changes anything
   | qFind                 -- find_lanelet_by_position / find_lanelet_by_shape: the index contents that answer
   | qPoly (id : Nat)
@@ -671,19 +675,35 @@ def Net.addAll (n : Net) : List (Nat × Lan) → Bool → Bool × Net
       Net.addAll n' r b
     else (false, n)
 
+/-- `LaneletNetwork.remove_lanelet` (lanelet.py:1607-1620): an unknown id is ignored; the tree is rebuilt unless `rtree=False`. -/
+def Net.removeOne (n : Net) (id : Nat) (rtree : Bool) : Net :=
+  let n' := match assocGet id n.lanelets with
+    | some _ => { n with lanelets := assocErase id n.lanelets }
+    | none => n
+  let patched := match assocGet id n.lanelets with
+    | some _ => assocErase id n.buffered
+    | none => n.buffered
+  if rtree then Net.reindex .netRemoveLanelet n patched n' else { n' with buffered := patched }
+
+/-- `Scenario.remove_lanelet` (scenario.py:950-977), single lanelet or list: for every lanelet IN ORDER
+    `if find_lanelet_by_id(id) is None: raise KeyError`, then `lanelet_network.remove_lanelet(id)` (tree rebuilt), then
+    `_id_set.remove(id)`, which raises KeyError for an id the scenario never registered (a lanelet added through
+    `scenario.lanelet_network.add_lanelet`).  The call can therefore FAIL HALF WAY: the lanelets before the offending one — and an
+    unregistered one itself — are gone from the network.  The flag says whether the id is in the scenario's id set. -/
+def Net.removeMany (n : Net) : List (Nat × Bool) → NetAns × Net
+  | [] => (.unit, n)
+  | (id, registered) :: r =>
+    match assocGet id n.lanelets with
+    | none => (.err .key, n)
+    | some _ => if registered then Net.removeMany (n.removeOne id true) r else (.err .key, n.removeOne id true)
+
 def Net.step (n : Net) : NetOp → NetAns × Net
   | .add id l rtree => let (b, n') := n.addOne id l rtree; (.bool b, n')
   | .addFrom ls =>                        -- lanelet.py:1924-1938: adds with rtree=False, then one rebuild
     let (b, n') := n.addAll ls true
     (.bool b, Net.reindex .netAddFromNetwork n n'.buffered n')
-  | .remove id rtree =>                   -- lanelet.py:1604-1617
-    let n' := match assocGet id n.lanelets with
-      | some _ => { n with lanelets := assocErase id n.lanelets }
-      | none => n
-    let patched := match assocGet id n.lanelets with
-      | some _ => assocErase id n.buffered
-      | none => n.buffered
-    (.unit, if rtree then Net.reindex .netRemoveLanelet n patched n' else { n' with buffered := patched })
+  | .remove id rtree => (.unit, n.removeOne id rtree)
+  | .removeMany ids => n.removeMany ids
   | .translateRotate v =>                 -- lanelet.py:1936-1965
     let (ls, e) := moveAll v n.lanelets
     match e with
@@ -708,6 +728,10 @@ def Net.step (n : Net) : NetOp → NetAns × Net
     (.unit, Net.reindex .netCreateFrom n n.buffered n)
   | .replace ls =>                        -- scenario.py `replace_lanelet_network` / `add_objects(LaneletNetwork)`
     (.unit, Net.reindex .netReplace n n.buffered { n with lanelets := ls.map (fun p => (p.1, p.2.replaced)) })
+  | .replaceErase unreg ls =>             -- scenario.py:897-918
+    match n.removeMany (n.lanelets.map fun p => (p.1, !unreg.contains p.1)) with
+    | (.err e, n') => (.err e, n')
+    | _ => (.unit, Net.reindex .netReplace n n.buffered { n with lanelets := ls.map (fun p => (p.1, p.2.replaced)) })
   | .failed e => (.err e, n)
   | .qFind =>                             -- lanelet.py:1980-2019
     match n.tree with
@@ -737,6 +761,92 @@ def Net.run (n : Net) : List NetOp → List NetAns × Net
 def Net.rebuild (n : Net) : Net :=
   let ls := n.lanelets.map (fun p => (p.1, p.2.rebuild))
   { lanelets := ls, buffered := ls.map (fun p => (p.1, p.2.xy)), tree := some (ls.map (fun p => (p.1, p.2.xy))) }
+
+/-! ### Two networks alive side by side
+
+A second network is derived from the first one by a public factory / copy / adder; BOTH stay alive, both are mutated and
+queried.  What the model has to say is whether the derivation COPIES the lanelets or hands the SAME `Lanelet` objects to the
+second network.  Lanelets two networks share are moved by either network's `translate_rotate`; the other network is not told —
+the member-lanelet pair of the table (`act .networkIndex .lanTranslateRotate = keep`), reached through network-level calls only. -/
+
+inductive Derive where
+  | fromList (cleanup : Bool)   -- LaneletNetwork.create_from_lanelet_list(a.lanelets, cleanup_ids): `add_lanelet(copy.deepcopy(la))`
+                                -- for every lanelet, whatever `cleanup_ids` (lanelet.py:1459-1461)
+  | fromNetwork                 -- LaneletNetwork.create_from_lanelet_network(a): deep copies (lanelet.py:1565-1566)
+  | deepcopy                    -- copy.deepcopy(a) (lanelet.py:1308-1322)
+  | pickle                      -- pickle.loads(pickle.dumps(a)) (lanelet.py:1299-1306)
+  | addFrom                     -- b = LaneletNetwork(); b.add_lanelets_from_network(a): `self.add_lanelet(la, rtree=False)` with
+                                -- a's OWN lanelet objects (lanelet.py:1937-1938)
+  deriving DecidableEq, Repr, Inhabited
+
+/-- Does the derived network hold the source's lanelet objects? -/
+def Derive.shares : Derive → Bool
+  | .addFrom => true
+  | _ => false
+
+/-- `LaneletNetwork()`: no lanelets, an empty index (fix 790d303). -/
+def Net.empty : Net := ⟨[], [], some []⟩
+
+/-- The derived network as the derivation leaves it (lanelet values are copied either way; `shares` says whether they are also
+    the same objects). -/
+def Net.derive (n : Net) : Derive → Net
+  | .fromList _ => Net.reindex .netCreateFrom n n.buffered n
+  | .fromNetwork => Net.reindex .netCreateFrom n n.buffered n
+  | .deepcopy => (Net.reindex .netDeepcopy n n.buffered n).createTree
+  | .pickle => (Net.reindex .netPickle n n.buffered n).createTree
+  | .addFrom =>
+    let (_, b) := Net.empty.addAll n.lanelets true
+    Net.reindex .netAddFromNetwork Net.empty b.buffered b
+
+structure Duo where
+  a : Net                 -- the source network
+  b : Net                 -- the network derived from it
+  shared : List Nat       -- ids of the lanelets that are ONE object held by both networks
+  deriving DecidableEq, Repr, Inhabited
+
+def Duo.derive (n : Net) (d : Derive) : Duo := ⟨n, n.derive d, if d.shares then n.lanelets.map (fun p => p.1) else []⟩
+
+inductive Side where
+  | a | b
+  deriving DecidableEq, Repr, Inhabited
+
+def Duo.side (d : Duo) : Side → Net
+  | .a => d.a
+  | .b => d.b
+
+/-- After these the history goes on with ANOTHER network object on that side (a copy / other lanelets): nothing is shared any more. -/
+def NetOp.detaches : NetOp → Bool
+  | .deepcopy => true
+  | .pickle => true
+  | .createFrom => true
+  | .replace _ => true
+  | .replaceErase _ _ => true
+  | _ => false
+
+/-- A shared lanelet is one object: whatever the call on one network did to it (vertices AND the lanelet's own caches) is what the
+    other network's lanelet looks like. -/
+def syncShared (shared : List Nat) (src dst : List (Nat × Lan)) : List (Nat × Lan) :=
+  dst.map fun p => if shared.contains p.1 then (p.1, (assocGet p.1 src).getD p.2) else p
+
+/-- One operation on one of the two networks.  The network it is called on behaves as `Net.step` says; the other network keeps its
+    lanelet SET, its buffered polygons and its tree, and sees the shared lanelet objects as the call left them. -/
+def Duo.step (d : Duo) (s : Side) (op : NetOp) : NetAns × Duo :=
+  match s with
+  | .a =>
+    let r := d.a.step op
+    let sh := if op.detaches then [] else d.shared.filter fun i => (assocGet i r.2.lanelets).isSome
+    (r.1, ⟨r.2, { d.b with lanelets := syncShared sh r.2.lanelets d.b.lanelets }, sh⟩)
+  | .b =>
+    let r := d.b.step op
+    let sh := if op.detaches then [] else d.shared.filter fun i => (assocGet i r.2.lanelets).isSome
+    (r.1, ⟨{ d.a with lanelets := syncShared sh r.2.lanelets d.a.lanelets }, r.2, sh⟩)
+
+def Duo.run (d : Duo) : List (Side × NetOp) → List NetAns × Duo
+  | [] => ([], d)
+  | (s, op) :: ops =>
+    let r := d.step s op
+    let rs := Duo.run r.2 ops
+    (r.1 :: rs.1, rs.2)
 
 /-! ### A single lanelet outside a network -/
 
